@@ -72,13 +72,15 @@ func isCriticalFailure(result *notation.ValidationResult) bool {
 func getNonPluginExtendedCriticalAttributes(signerInfo *signature.SignerInfo) []signature.Attribute {
 	var criticalExtendedAttrs []signature.Attribute
 	for _, attr := range signerInfo.SignedAttributes.ExtendedAttributes {
-		attrStrKey, ok := attr.Key.(string)
-		// filter the plugin extended attributes
-		if ok && !slices.Contains(VerificationPluginHeaders, attrStrKey) {
-			// TODO support other attribute types
-			// (COSE attribute keys can be numbers)
-			criticalExtendedAttrs = append(criticalExtendedAttrs, attr)
+		// only critical attributes must be processed
+		if !attr.Critical {
+			continue
 		}
+		// filter the plugin extended attributes
+		if attrStrKey, ok := attr.Key.(string); ok && slices.Contains(VerificationPluginHeaders, attrStrKey) {
+			continue
+		}
+		criticalExtendedAttrs = append(criticalExtendedAttrs, attr)
 	}
 	return criticalExtendedAttrs
 }
